@@ -152,7 +152,7 @@ impl Write for Script {
         let mut log = self.log.lock().unwrap();
         if let Some(cap) = self.write_fail_after {
             if log.written.len() >= cap {
-                return Err(io::Error::new(kind_of(self.write_fail_kind), "scripted write failure"));
+                return Err(io::Error::new(kind_of(self.write_fail_kind), ScriptErr(self.write_fail_kind)));
             }
             n = n.min(cap - log.written.len());
         }
